@@ -833,3 +833,7 @@ package circuitbreaker
 //@   requires e != nil
 //@   ensures [C03.event.context] result == e.context
 //@   modifies nothing
+
+//@ func (State).String
+//@   ensures [C03.state.names] (s == ClosedState ==> result == "closed") && (s == OpenState ==> result == "open") && (s == HalfOpenState ==> result == "half-open")
+//@   modifies nothing
